@@ -234,11 +234,37 @@ def _run(R):
                 val = kind in names
         elif k == "isnone" and subj == par:
             val = kind == "None"
-        elif k == "truth" and isinstance(subj, str) and subj in flags:
+        elif k == "truth" and isinstance(subj, str) and subj in flags and isinstance(flags[subj], bool):
             val = flags[subj]
+        elif k == "eq" and isinstance(subj, tuple) and len(subj) == 2:
+            # a tag chosen under the kind tests and compared later: `kind = _KIND_LIST` ... `if kind == _KIND_LIST:`
+            a_, b_ = subj
+            if b_ in flags and a_ not in flags:
+                a_, b_ = b_, a_
+            if a_ in flags and isinstance(flags[a_], tuple):
+                other = tag_value(b_)
+                if other is not None:
+                    val = flags[a_] == other
         if val is None:
             return None
         return val if pos else (not val)
+
+    mod_consts = {}
+    for st_ in ra.module.tree.body if hasattr(ra.module, "tree") else []:
+        if isinstance(st_, ast.Assign) and len(st_.targets) == 1 and isinstance(st_.targets[0], ast.Name) and isinstance(st_.value, ast.Constant):
+            mod_consts[st_.targets[0].id] = mod_consts.get(st_.targets[0].id, []) + [st_.value.value]
+
+    def tag_value(text):
+        """("tag", value) for a literal or a module-level name bound once to a literal"""
+        try:
+            e_ = ast.parse(text, mode="eval").body
+        except SyntaxError:
+            return None
+        if isinstance(e_, ast.Constant):
+            return ("tag", repr(e_.value))
+        if isinstance(e_, ast.Name) and len(mod_consts.get(e_.id, [])) == 1:
+            return ("tag", repr(mod_consts[e_.id][0]))
+        return None
 
     def follow(kind):
         from collections import deque
@@ -259,6 +285,8 @@ def _run(R):
                     only = "T" if t else "F"
             elif nd.kind == "stmt" and isinstance(nd.ast, ast.Assign) and len(nd.ast.targets) == 1 and isinstance(nd.ast.targets[0], ast.Name):
                 t = truth_of(nd.ast.value, kind, flags) if isinstance(nd.ast.value, (ast.Call, ast.Compare, ast.UnaryOp)) else None
+                if t is None and isinstance(nd.ast.value, (ast.Name, ast.Constant)):
+                    t = tag_value(q.src(nd.ast.value))
                 if t is not None:
                     flags[nd.ast.targets[0].id] = t
                 else:
